@@ -78,7 +78,7 @@ class RunInfo:
             shape_masks=masks,
             mapspecs_as_strings=pipeline.mapspecs_as_strings,
             run_folder=run_folder,
-            storage=storage,
+            storage=_normalize_storage_keys(storage),
         )
 
     def storage_class(self, output_name: OUTPUT_TYPE) -> type[StorageBase]:
@@ -297,6 +297,17 @@ def _check_inputs(pipeline: Pipeline, inputs: dict[str, Any]) -> None:
         if (dim := input_dimensions.get(name, 0)) > 1 and isinstance(value, list | tuple):
             msg = f"Expected {dim}D `numpy.ndarray` for input `{name}`, got {type(value)}."
             raise ValueError(msg)
+
+
+def _normalize_storage_keys(
+    storage: str | dict[OUTPUT_TYPE, str],
+) -> str | dict[OUTPUT_TYPE, str]:
+    # An output name given as a 1-tuple is the same output as the bare name
+    # (`PipeFunc` normalizes its `output_name` in the same way). Without this,
+    # `("y",)` is ignored during the run but becomes `"y"` after a dump/load.
+    if isinstance(storage, str):
+        return storage
+    return {k[0] if isinstance(k, tuple) and len(k) == 1 else k: v for k, v in storage.items()}
 
 
 def _maybe_str_to_tuple(x: str) -> tuple[str, ...] | str:
